@@ -123,7 +123,8 @@ func (t *ftr) isLockCall(e ast.Expr) bool {
 	switch m {
 	case "Lock", "Unlock", "RLock", "RUnlock":
 		// a package-level mutex or the receiver (which embeds sync.Mutex): never a local value of a modelled type
-		return t.lookup(id.Name) == nil || t.lookup(id.Name).k == "recv"
+		vt := t.lookup(id.Name)
+		return vt == nil || vt.k == "registry" || vt.k == "sregistry"
 	}
 	return false
 }
@@ -181,7 +182,9 @@ func (t *ftr) fmtConcat(format string, args []ast.Expr) (string, bool, bool) {
 			parts = append(parts, x.s)
 		case (v == 'd' || v == 'v') && x.t.k == "int":
 			parts = append(parts, "(GoSnaps.GoSem.itoa "+x.s+")")
-		case v == 'v' && x.t.k == "err":
+		case (v == 'v' || v == 's') && x.t.k == "err":
+			// err.Error() (a nil error would print %!v(<nil>) / %!s(<nil>): the operands here are the
+			// Reason of a MatcherError or an err known to be non-nil)
 			parts = append(parts, "("+x.s+").text")
 		default:
 			t.fail("format verb %%%c applied to an operand of type %s", v, x.t.lean())
@@ -199,6 +202,22 @@ func (t *ftr) fmtConcat(format string, args []ast.Expr) (string, bool, bool) {
 	return "(" + strings.Join(parts, " ++ ") + ")", p, true
 }
 
+// anyArg: is parameter i of the translated function `name` declared `any` in Go?
+func (t *ftr) anyArg(name string, i int) bool {
+	if d, ok := t.funcs[t.sp.pkg+"."+name]; ok {
+		return d.anyP[i]
+	}
+	return false
+}
+
+// fsx: the expression denoting the current file system
+func (t *ftr) fsx() string {
+	if t.sp.fx == "st" {
+		return "st.fs"
+	}
+	return "fs"
+}
+
 func (t *ftr) needFS(what string) bool {
 	if t.sp.fx == "" {
 		t.fail("%s needs the file system, but %s is not declared fx", what, t.sp.name)
@@ -208,7 +227,7 @@ func (t *ftr) needFS(what string) bool {
 }
 
 func (t *ftr) needRW(what string) bool {
-	if t.sp.fx != "rw" {
+	if t.sp.fx != "rw" && t.sp.fx != "st" {
 		t.fail("%s writes the file system, but %s is not declared fx = rw", what, t.sp.name)
 		return false
 	}
@@ -263,7 +282,7 @@ func (t *ftr) fxCall(e ast.Expr) (*fxRes, bool) {
 		if !ok {
 			return nil, true
 		}
-		return &fxRes{call: ioNS + "readFile io fs " + p, results: []*ty{tText, tErr}}, true
+		return &fxRes{call: ioNS + "readFile io " + t.fsx() + " " + p, results: []*ty{tText, tErr}}, true
 	case "os.MkdirAll":
 		if len(c.Args) != 2 || !perm(1) || !t.needRW(name) {
 			return nil, true
@@ -272,7 +291,7 @@ func (t *ftr) fxCall(e ast.Expr) (*fxRes, bool) {
 		if !ok {
 			return nil, true
 		}
-		return &fxRes{call: ioNS + "mkdirAll io fs " + p, outs: []string{"fs"}, results: []*ty{tErr}}, true
+		return &fxRes{call: ioNS + "mkdirAll io " + t.fsx() + " " + p, outs: []string{"fs"}, results: []*ty{tErr}}, true
 	case "os.WriteFile":
 		if len(c.Args) != 3 || !perm(2) || !t.needRW(name) {
 			return nil, true
@@ -282,7 +301,7 @@ func (t *ftr) fxCall(e ast.Expr) (*fxRes, bool) {
 		if !ok1 || !ok2 {
 			return nil, true
 		}
-		return &fxRes{call: ioNS + "writeFile io fs " + p + " " + b, outs: []string{"fs"}, results: []*ty{tErr}}, true
+		return &fxRes{call: ioNS + "writeFile io " + t.fsx() + " " + p + " " + b, outs: []string{"fs"}, results: []*ty{tErr}}, true
 	case "os.Remove":
 		if len(c.Args) != 1 || !t.needRW(name) {
 			return nil, true
@@ -291,7 +310,7 @@ func (t *ftr) fxCall(e ast.Expr) (*fxRes, bool) {
 		if !ok {
 			return nil, true
 		}
-		return &fxRes{call: ioNS + "remove io fs " + p, outs: []string{"fs"}, results: []*ty{tErr}}, true
+		return &fxRes{call: ioNS + "remove io " + t.fsx() + " " + p, outs: []string{"fs"}, results: []*ty{tErr}}, true
 	case "os.OpenFile":
 		if len(c.Args) != 3 || !perm(2) {
 			return nil, true
@@ -305,12 +324,12 @@ func (t *ftr) fxCall(e ast.Expr) (*fxRes, bool) {
 			if !t.needRW(name) {
 				return nil, true
 			}
-			return &fxRes{call: ioNS + "openAppend io fs " + p, outs: []string{"fs"}, results: []*ty{tFile, tErr}}, true
+			return &fxRes{call: ioNS + "openAppend io " + t.fsx() + " " + p, outs: []string{"fs"}, results: []*ty{tFile, tErr}}, true
 		case "os.O_RDWR":
 			if !t.needFS(name) {
 				return nil, true
 			}
-			return &fxRes{call: ioNS + "openRDWR io fs " + p, results: []*ty{tFile, tErr}}, true
+			return &fxRes{call: ioNS + "openRDWR io " + t.fsx() + " " + p, results: []*ty{tFile, tErr}}, true
 		}
 		t.fail("os.OpenFile with flags %s is outside the translated subset", t.src(c.Args[1]))
 		return nil, true
@@ -338,7 +357,7 @@ func (t *ftr) fxCall(e ast.Expr) (*fxRes, bool) {
 			t.fail("fmt.Fprintf operand can panic")
 			return nil, true
 		}
-		return &fxRes{call: ioNS + "fileWrite io fs " + t.ln(id.Name) + " " + txt, outs: []string{"fs", id.Name}, results: []*ty{tInt, tErr}}, true
+		return &fxRes{call: ioNS + "fileWrite io " + t.fsx() + " " + t.ln(id.Name) + " " + txt, outs: []string{"fs", id.Name}, results: []*ty{tInt, tErr}}, true
 	case "snapshotScanner":
 		if len(c.Args) != 1 {
 			return nil, false
@@ -347,7 +366,7 @@ func (t *ftr) fxCall(e ast.Expr) (*fxRes, bool) {
 			if !t.needFS(name) {
 				return nil, true
 			}
-			return &fxRes{call: ioNS + "scanFile fs " + t.ln(id.Name), outs: []string{id.Name}, results: []*ty{tScan}}, true
+			return &fxRes{call: ioNS + "scanFile " + t.fsx() + " " + t.ln(id.Name), outs: []string{id.Name}, results: []*ty{tScan}}, true
 		}
 		return nil, false
 	}
@@ -362,12 +381,41 @@ func (t *ftr) fxCall(e ast.Expr) (*fxRes, bool) {
 			if !ok {
 				return nil, true
 			}
-			return &fxRes{call: ioNS + "fileWrite io fs " + t.ln(id.Name) + " " + b, outs: []string{"fs", id.Name}, results: []*ty{tInt, tErr}}, true
+			return &fxRes{call: ioNS + "fileWrite io " + t.fsx() + " " + t.ln(id.Name) + " " + b, outs: []string{"fs", id.Name}, results: []*ty{tInt, tErr}}, true
 		case "Stat":
 			if len(c.Args) != 0 || !t.needFS("f.Stat") {
 				return nil, true
 			}
-			return &fxRes{call: ioNS + "fileStat io fs " + t.ln(id.Name), results: []*ty{tInt, tErr}}, true
+			return &fxRes{call: ioNS + "fileStat io " + t.fsx() + " " + t.ln(id.Name), results: []*ty{tInt, tErr}}, true
+		}
+	}
+	// a method of a package-level registry: the registry is a field of the state
+	if id, m, _, ok := recvCall(e); ok && t.lookup(id.Name) == nil {
+		if ps, ok := pkgState[id.Name]; ok {
+			d, ok := t.funcs[t.sp.pkg+"."+ps.kind+"."+m]
+			if !ok {
+				t.fail("%s.%s is not translated", id.Name, m)
+				return nil, true
+			}
+			if t.sp.fx != "st" {
+				t.fail("%s.%s acts on package state, but %s is not declared fx = st", id.Name, m, t.sp.name)
+				return nil, true
+			}
+			// the translated method takes the receiver first
+			var a []string
+			for i, arg := range c.Args {
+				x := t.exprH(arg, d.params[i+1])
+				if t.err != nil {
+					return nil, true
+				}
+				if !x.t.eq(d.params[i+1]) || x.p {
+					t.fail("%s.%s: argument %d", id.Name, m, i+1)
+					return nil, true
+				}
+				a = append(a, x.s)
+			}
+			return &fxRes{call: d.ns() + leanDefName(ps.kind+"."+m) + " st." + ps.field + " " + strings.Join(a, " "),
+				outs: []string{"st:" + ps.field}, results: d.rets, partial: d.partial}, true
 		}
 	}
 	// a translated function with effects or in-out parameters
@@ -394,11 +442,17 @@ func (t *ftr) fxTranslated(name string, d *doneFn, c *ast.CallExpr) *fxRes {
 		}
 		lead = append(lead, xp.name)
 	}
-	if d.spec.fx != "" {
+	if d.spec.fx == "st" {
+		if t.sp.fx != "st" {
+			t.fail("%s acts on the whole state, but %s is not declared fx = st", name, t.sp.name)
+			return nil
+		}
+		lead = append([]string{"io", "st"}, lead...)
+	} else if d.spec.fx != "" {
 		if !t.needFS(name) || (d.spec.fx == "rw" && !t.needRW(name)) {
 			return nil
 		}
-		lead = append([]string{"io", "fs"}, lead...)
+		lead = append([]string{"io", t.fsx()}, lead...)
 	}
 	a, p, ok := t.args(name, c, d.params)
 	if !ok {
@@ -408,9 +462,12 @@ func (t *ftr) fxTranslated(name string, d *doneFn, c *ast.CallExpr) *fxRes {
 		t.fail("call of %s: an argument can panic", name)
 		return nil
 	}
-	fr := &fxRes{call: d.ns() + name + " " + strings.Join(append(lead, a...), " "), partial: d.partial}
+	fr := &fxRes{call: d.ns() + leanDefName(name) + " " + strings.Join(append(lead, a...), " "), partial: d.partial}
 	if d.spec.fx == "rw" {
 		fr.outs = append(fr.outs, "fs")
+	}
+	if d.spec.fx == "st" {
+		fr.outs = append(fr.outs, "st")
 	}
 	for _, io := range d.spec.inout {
 		idx := -1
@@ -445,11 +502,7 @@ func (t *ftr) emitFx(b *strings.Builder, ind string, fr *fxRes) ex {
 		return ex{"()", tUnit, false}
 	}
 	for j, o := range fr.outs {
-		lhs := "fs"
-		if o != "fs" {
-			lhs = t.ln(o)
-		}
-		fmt.Fprintf(b, "%s%s := %s\n", ind, lhs, proj(r, j, n))
+		t.setOut(b, ind, o, proj(r, j, n))
 	}
 	if len(fr.results) == 0 {
 		return ex{"()", tUnit, false}
@@ -458,6 +511,32 @@ func (t *ftr) emitFx(b *strings.Builder, ind string, fr *fxRes) ex {
 		return ex{r, nestedPair(fr.results), false}
 	}
 	return ex{r + strings.Repeat(".2", len(fr.outs)), nestedPair(fr.results), false}
+}
+
+// setOut: update the state named by an `outs` entry: "fs" (the file system of this function: the
+// variable fs, or the field of st), "st" (the whole state), "st:<field>", or a local variable
+func (t *ftr) setOut(b *strings.Builder, ind, o, val string) {
+	switch {
+	case o == "fs" && t.sp.fx == "st":
+		fmt.Fprintf(b, "%sst := { st with fs := %s }\n", ind, val)
+	case o == "fs":
+		fmt.Fprintf(b, "%sfs := %s\n", ind, val)
+	case o == "st":
+		fmt.Fprintf(b, "%sst := %s\n", ind, val)
+	case strings.HasPrefix(o, "st:"):
+		fmt.Fprintf(b, "%sst := { st with %s := %s }\n", ind, o[3:], val)
+	default:
+		fmt.Fprintf(b, "%s%s := %s\n", ind, t.ln(o), val)
+	}
+}
+
+// the package-level registries, as fields of the state
+var pkgState = map[string]struct {
+	field string
+	kind  string
+}{
+	"testsRegistry":           {"reg", "syncRegistry"},
+	"standaloneTestsRegistry": {"sreg", "syncStandaloneRegistry"},
 }
 
 // ioExpr: expression forms added for the effectful subset; ok = false: not one of them
@@ -476,6 +555,14 @@ func (t *ftr) ioExpr(e ast.Expr, hint *ty) (ex, bool) {
 				}
 			}
 		}
+		// a package variable defined as colors.Sprint(<colour>, <constant string>): its NO_COLOR rendering
+		if t.lookup(e.Name) == nil && t.sp.pkg == "snaps" {
+			if c, ok := t.pkg.values[e.Name].(*ast.CallExpr); ok && selName(c.Fun) == "colors.Sprint" && len(c.Args) == 2 {
+				if _, ok := t.pkg.constString(c.Args[1]); ok && !t.pkg.assignedAnywhere(e.Name) {
+					return ex{"GoSnaps.Generated.go_" + e.Name, tText, false}, true
+				}
+			}
+		}
 		// a package variable defined as []byte(<string constant>) and never assigned: an alias of the constant
 		if t.lookup(e.Name) == nil && t.sp.pkg == "snaps" {
 			if c, ok := t.pkg.values[e.Name].(*ast.CallExpr); ok && len(c.Args) == 1 {
@@ -488,6 +575,15 @@ func (t *ftr) ioExpr(e ast.Expr, hint *ty) (ex, bool) {
 						return ex{"GoSnaps.Generated.go_" + id.Name, tText, false}, true
 					}
 				}
+			}
+		}
+	case *ast.CompositeLit:
+		if len(e.Elts) == 0 {
+			switch t.src(e.Type) {
+			case "[]match.MatcherError":
+				return ex{"([] : List GoSnaps.GoIO.MErr)", tMErrs, false}, true
+			case "[]string":
+				return ex{"([] : List (List UInt8))", tTexts, false}, true
 			}
 		}
 	case *ast.BinaryExpr:
@@ -561,6 +657,43 @@ func (t *ftr) ioExpr(e ast.Expr, hint *ty) (ex, bool) {
 					return x, true
 				}
 			}
+		case "colors.Sprint":
+			// NO_COLOR rendering: the text itself
+			if len(e.Args) == 2 {
+				x := t.expr(e.Args[1])
+				if t.err == nil && x.t.k == "text" {
+					return x, true
+				}
+			}
+		case "shouldCreate", "shouldUpdate":
+			if len(e.Args) == 1 && t.sp.fx == "st" {
+				x := t.expr(e.Args[0])
+				if t.err == nil && x.t.k == "optbool" {
+					return ex{"(GoSnaps.Generated." + name + " st.env " + x.s + ")", tBool, false}, true
+				}
+			}
+		case "prettyDiff":
+			if len(e.Args) == 4 {
+				a, b2, r, l := t.expr(e.Args[0]), t.expr(e.Args[1]), t.expr(e.Args[2]), t.exprH(e.Args[3], tInt)
+				if t.err == nil && a.t.k == "text" && b2.t.k == "text" && r.t.k == "text" && l.t.k == "int" {
+					return ex{"(" + ioNS + "prettyDiffI " + a.s + " " + b2.s + " " + r.s + " " + l.s + ")", tText, a.p || b2.p || r.p || l.p}, true
+				}
+			}
+		case "pretty.Sprint":
+			// a value of type any IS its kr/pretty rendering
+			if len(e.Args) == 1 {
+				x := t.expr(e.Args[0])
+				if t.err == nil && x.t.k == "text" {
+					return x, true
+				}
+			}
+		case "make":
+			if len(e.Args) == 2 && t.src(e.Args[0]) == "[]string" {
+				n := t.exprH(e.Args[1], tInt)
+				if t.err == nil && n.t.k == "int" {
+					return ex{"(GoSnaps.GoSem.makeTexts " + n.s + ")", tTexts, n.p}, true
+				}
+			}
 		case "fmt.Sprintf":
 			if len(e.Args) >= 1 {
 				if format, ok := t.stringLit(e.Args[0]); ok {
@@ -570,6 +703,15 @@ func (t *ftr) ioExpr(e ast.Expr, hint *ty) (ex, bool) {
 					}
 					return ex{txt, tText, p}, true
 				}
+				// fmt.Sprintf(path, n): the format is run-time data (the standalone path); interpreted by the
+				// model's Sprintf, `none` when it uses a feature outside the modelled fragment
+				if len(e.Args) == 2 {
+					f, n := t.expr(e.Args[0]), t.exprH(e.Args[1], tInt)
+					if t.err == nil && f.t.k == "text" && n.t.k == "int" && !f.p && !n.p {
+						t.partial = true
+						return ex{"(← GoSnaps.GoIO.sprintfInt " + f.s + " " + n.s + ")", tText, true}, true
+					}
+				}
 				t.fail("fmt.Sprintf with a non-literal format")
 				return ex{}, true
 			}
@@ -577,6 +719,8 @@ func (t *ftr) ioExpr(e ast.Expr, hint *ty) (ex, bool) {
 		if id, m, c, ok := recvCall(e); ok {
 			if vt := t.lookup(id.Name); vt != nil {
 				switch {
+				case vt.k == "T" && m == "Name" && len(c.Args) == 0:
+					return ex{t.ln(id.Name) + ".name", tText, false}, true
 				case vt.k == "scanner" && m == "Bytes" && len(c.Args) == 0, vt.k == "scanner" && m == "Text" && len(c.Args) == 0:
 					return ex{t.ln(id.Name) + ".bytes", tText, false}, true
 				case vt.k == "scanner" && m == "Err" && len(c.Args) == 0:
@@ -683,7 +827,7 @@ func (t *ftr) ioStmt(b *strings.Builder, ind string, st ast.Stmt, res *ty) bool 
 				switch {
 				case m == "Truncate" && len(c.Args) == 1 && t.src(c.Args[0]) == "0":
 					if t.needRW("f.Truncate") {
-						fmt.Fprintf(b, "%sfs := %sfileTruncate0 fs %s\n", ind, ioNS, t.ln(id.Name))
+						t.setOut(b, ind, "fs", ioNS+"fileTruncate0 "+t.fsx()+" "+t.ln(id.Name))
 					}
 					return true
 				case m == "Seek" && len(c.Args) == 2 && t.src(c.Args[0]) == "0" && t.src(c.Args[1]) == "io.SeekStart":
@@ -691,6 +835,83 @@ func (t *ftr) ioStmt(b *strings.Builder, ind string, st ast.Stmt, res *ty) bool 
 					return true
 				}
 			}
+		}
+		if id, m, c, ok := recvCall(s.X); ok {
+			if vt := t.lookup(id.Name); vt != nil && vt.k == "T" {
+				tn := t.ln(id.Name)
+				switch {
+				case m == "Helper" && len(c.Args) == 0:
+					fmt.Fprintf(b, "%s-- %s\n", ind, t.src(s.X))
+					return true
+				case (m == "Log" || m == "Error") && len(c.Args) == 1 && t.sp.fx == "st":
+					x := t.expr(c.Args[0])
+					if t.err != nil {
+						b.WriteString(ind + "sorry\n")
+						return true
+					}
+					if x.t.k == "err" {
+						x = ex{"(" + x.s + ").text", tText, x.p}
+					}
+					if x.t.k != "text" || x.p {
+						t.stmtFail(b, ind, "t.%s of %s", m, x.t.lean())
+						return true
+					}
+					fmt.Fprintf(b, "%sst := st.t%s %s %s\n", ind, m, tn, x.s)
+					return true
+				case m == "Cleanup" && len(c.Args) == 1 && t.sp.fx == "st":
+					// t.Cleanup(func() { <registry>.reset(args) })
+					if fl, ok := c.Args[0].(*ast.FuncLit); ok && len(fl.Body.List) == 1 && len(fl.Type.Params.List) == 0 {
+						if es, ok := fl.Body.List[0].(*ast.ExprStmt); ok {
+							if rid, rm, rc, ok := recvCall(es.X); ok && rm == "reset" && t.lookup(rid.Name) == nil {
+								if ps, ok := pkgState[rid.Name]; ok {
+									var a []string
+									for _, arg := range rc.Args {
+										x := t.expr(arg)
+										if t.err != nil || x.t.k != "text" || x.p {
+											t.stmtFail(b, ind, "argument of the cleanup %s", t.src(es.X))
+											return true
+										}
+										a = append(a, x.s)
+									}
+									ctor := map[string]string{"reg": "resetReg", "sreg": "resetSReg"}[ps.field]
+									want := map[string]int{"reg": 2, "sreg": 1}[ps.field]
+									if len(a) == want {
+										fmt.Fprintf(b, "%sst := st.tCleanup %s (%sCleanup.%s %s)\n", ind, tn, ioNS, ctor, strings.Join(a, " "))
+										return true
+									}
+								}
+							}
+						}
+					}
+					t.stmtFail(b, ind, "t.Cleanup with a function other than a single registry reset")
+					return true
+				}
+			}
+			if t.lookup(id.Name) == nil && id.Name == "testEvents" && m == "register" && len(c.Args) == 1 && t.sp.fx == "st" {
+				if k, ok := c.Args[0].(*ast.Ident); ok && t.lookup(k.Name) == nil {
+					switch k.Name {
+					case "erred", "added", "updated", "passed":
+						fmt.Fprintf(b, "%sst := st.register %s\n", ind, bytesLit(k.Name))
+						return true
+					}
+				}
+				t.stmtFail(b, ind, "testEvents.register of %s", t.src(c.Args[0]))
+				return true
+			}
+		}
+		// colors.Fprint(&sb, colour, text): NO_COLOR rendering appends the text
+		if c, ok := s.X.(*ast.CallExpr); ok && selName(c.Fun) == "colors.Fprint" && len(c.Args) == 3 {
+			if u, ok := c.Args[0].(*ast.UnaryExpr); ok && u.Op == token.AND {
+				if id, ok := u.X.(*ast.Ident); ok && t.builder[id.Name] {
+					x := t.expr(c.Args[2])
+					if t.err == nil && x.t.k == "text" && !x.p {
+						fmt.Fprintf(b, "%s%s := %s ++ %s\n", ind, t.ln(id.Name), t.ln(id.Name), x.s)
+						return true
+					}
+				}
+			}
+			t.stmtFail(b, ind, "unsupported colors.Fprint %s", t.src(s.X))
+			return true
 		}
 		// Fprintf into a builder
 		if c, ok := s.X.(*ast.CallExpr); ok && selName(c.Fun) == "fmt.Fprintf" && len(c.Args) >= 2 {
@@ -732,6 +953,119 @@ func (t *ftr) ioStmt(b *strings.Builder, ind string, st ast.Stmt, res *ty) bool 
 		return false
 	}
 	return false
+}
+
+// exprMulti: an expression in a position that receives n values
+func (t *ftr) exprMulti(e ast.Expr, n int) ex {
+	// v, ok := m[k]
+	if ix, isIx := e.(*ast.IndexExpr); isIx && n == 2 {
+		x := t.expr(ix.X)
+		if t.err != nil {
+			return ex{"sorry", tBad, false}
+		}
+		if x.t.k == "map2" || x.t.k == "map1" {
+			k := t.expr(ix.Index)
+			if t.err != nil {
+				return ex{"sorry", tBad, false}
+			}
+			if k.t.k != "text" {
+				return t.fail("map key of type %s", k.t.lean())
+			}
+			if x.t.k == "map2" {
+				return ex{"((GoSnaps.GoIO.map2Inner " + x.s + " " + k.s + "), (GoSnaps.GoIO.map2Has " + x.s + " " + k.s + "))", pairOf(tMap1, tBool), x.p || k.p}
+			}
+			return t.fail("comma-ok read of a map[string]int is outside the translated subset")
+		}
+	}
+	return t.expr(e)
+}
+
+// mapAssign: `recv.field[k] = v`, `recv.field[a][b] = v`, `…++` on the maps of a registry receiver.
+// rhs == nil with tok == INC is the increment.
+func (t *ftr) mapAssign(b *strings.Builder, ind string, ix *ast.IndexExpr, tok token.Token, rhs ast.Expr) bool {
+	var keys []ast.Expr
+	base := ast.Expr(ix)
+	for {
+		i, ok := base.(*ast.IndexExpr)
+		if !ok {
+			break
+		}
+		keys = append([]ast.Expr{i.Index}, keys...)
+		base = i.X
+	}
+	sel, ok := base.(*ast.SelectorExpr)
+	if !ok {
+		return false
+	}
+	id, ok := sel.X.(*ast.Ident)
+	if !ok || t.lookup(id.Name) == nil {
+		return false
+	}
+	rk := t.lookup(id.Name).k
+	if rk != "registry" && rk != "sregistry" {
+		return false
+	}
+	field := sel.Sel.Name
+	if field != "running" && field != "cleanup" {
+		t.stmtFail(b, ind, "assignment to field %s of the registry", field)
+		return true
+	}
+	recv := t.ln(id.Name)
+	m := recv + "." + field
+	var ks []string
+	for _, k := range keys {
+		x := t.expr(k)
+		if t.err != nil {
+			b.WriteString(ind + "sorry\n")
+			return true
+		}
+		if x.t.k != "text" || x.p {
+			t.stmtFail(b, ind, "map key %s", t.src(k))
+			return true
+		}
+		ks = append(ks, x.s)
+	}
+	set := func(val string) {
+		fmt.Fprintf(b, "%s%s := { %s with %s := %s }\n", ind, recv, recv, field, val)
+	}
+	intVal := func() (string, bool) {
+		x := t.exprH(rhs, tInt)
+		if t.err != nil {
+			b.WriteString(ind + "sorry\n")
+			return "", false
+		}
+		if x.t.k != "int" || x.p {
+			t.stmtFail(b, ind, "map value %s", t.src(rhs))
+			return "", false
+		}
+		return x.s, true
+	}
+	switch {
+	case rk == "registry" && len(ks) == 1 && tok == token.ASSIGN:
+		// m[a] = make(map[string]int)
+		if c, ok := rhs.(*ast.CallExpr); ok && selName(c.Fun) == "make" && len(c.Args) == 1 && t.src(c.Args[0]) == "map[string]int" {
+			set("GoSnaps.GoIO.map2SetInner " + m + " " + ks[0] + " []")
+			return true
+		}
+		t.stmtFail(b, ind, "assignment of %s to an inner map", t.src(rhs))
+	case rk == "registry" && len(ks) == 2 && tok == token.INC:
+		t.partial = true
+		set("(← GoSnaps.GoIO.map2Inc " + m + " " + ks[0] + " " + ks[1] + ")")
+	case rk == "registry" && len(ks) == 2 && tok == token.ASSIGN:
+		if v, ok := intVal(); ok {
+			t.partial = true
+			set("(← GoSnaps.GoIO.map2Set " + m + " " + ks[0] + " " + ks[1] + " " + v + ")")
+		}
+	case rk == "sregistry" && len(ks) == 1 && tok == token.INC:
+		set("GoSnaps.GoIO.map1Inc " + m + " " + ks[0])
+	case rk == "sregistry" && len(ks) == 1 && tok == token.ASSIGN:
+		if v, ok := intVal(); ok {
+			set("GoSnaps.GoIO.map1Set " + m + " " + ks[0] + " " + v)
+		}
+	default:
+		t.stmtFail(b, ind, "unsupported map assignment %s", t.src(ix))
+	}
+	return true
 }
 
 // assignedAnywhere: is the package-level variable assigned in any function of the package?
